@@ -11,9 +11,11 @@ def vectors(ctx):
     seqs = [list(s) for n in (1, 2, 3) for s in itertools.product(OPS, repeat=n)]
     # the bare sequence must start with a write to be interesting; keep all for the manifest layout
     vecs = []
-    for layout in ("bare", "manifest"):
+    for layout in ("bare", "manifest", "foreign", "foreign-manifest"):
         for s in seqs:
-            if layout == "bare" and s[0] == "RM" and len(s) > 1:
+            if layout in ("bare", "foreign") and s[0] == "RM" and len(s) > 1:
+                continue
+            if layout.startswith("foreign") and len(s) == 3 and s[1] == s[2]:
                 continue
             vecs.append({"layout": layout, "ops": s})
     ctx.rng.shuffle(vecs)
@@ -52,18 +54,19 @@ def pipeline(ctx):
         events.append({"e": "reset", "layout": x["layout"]}); owner.append((ri, -1))
         for si, s in enumerate(x["steps"]):
             if "panic" in s:
-                events.append({"e": "write", "s": "?", "size": 0, "ok": False, "read": "panic", "present": [], "markers": False, "cai_n": 0, "cai_ok": True, "outside": 0, "media": "unknown"}); owner.append((ri, si))
+                events.append({"e": "write", "s": "?", "size": 0, "ok": False, "read": "panic", "present": [], "markers": False, "cai_n": 0, "cai_ok": True, "outside": 0, "media": "unknown", "foreign": "na"}); owner.append((ri, si))
                 continue
             yn = lambda v: "unknown" if v is None else ("yes" if v else "no")
+            fg = "na" if "foreign" not in s or x.get("foreign_at_start") != 1 else ("yes" if s["foreign"] == 1 else "no")
             if s["op"] == "write":
                 cai = s.get("cai") or {"n": 0, "in_file": True, "contains_store": True, "disjoint": True}
                 events.append({"e": "write", "s": s["s"], "size": s["size"], "ok": s["ok"], "read": s.get("read", "err"), "present": s.get("present", []), "markers": markers,
                                "cai_n": cai["n"], "cai_ok": bool(cai["in_file"] and cai["contains_store"] and cai["disjoint"]),
-                               "outside": s.get("samesize_outside", 1 if "samesize_len_changed" in s else 0), "media": yn(s.get("media_same"))})
+                               "outside": s.get("samesize_outside", 1 if "samesize_len_changed" in s else 0), "media": yn(s.get("media_same")), "foreign": fg})
             else:
                 events.append({"e": "remove", "ok": s["ok"], "read": "none" if str(s.get("read", "")).startswith("none") else "some", "present": s.get("present", []), "markers": markers,
                                "remove_equal": "unknown" if not s.get("removed_orig_ok", False) else yn(s.get("remove_equal")),
-                               "usable": bool(s.get("accepts", True) and s.get("rewritable", True)), "media": yn(s.get("media_same"))})
+                               "usable": bool(s.get("accepts", True) and s.get("rewritable", True)), "media": yn(s.get("media_same")), "foreign": fg})
             owner.append((ri, si))
     accepted, matched, res = validate_trace(ctx, "Trace_Container", "Trace_Container.cfg", events, timeout=2400, heap="8g")
     if matched != len(events):
@@ -79,7 +82,7 @@ def pipeline(ctx):
     ctx.cov["traces_validated_against_impl"] += len(recs) - len(setup_errors)
     ctx.cov["evaluations"] = sum(len(x.get("steps", [])) for x in recs)
     ctx.cov["distinct_nontrivial"] = len({(x["format"], x["layout"], tuple(x["ops"])) for x in recs if "steps" in x and len(x["ops"]) > 1})
-    ctx.cov["rule"] = ("operation sequences of length <= 3 over {write A, write B (same size), write C (bigger), write D (smaller), remove} x layouts {bare, existing manifest} x formats "
+    ctx.cov["rule"] = ("operation sequences of length <= 3 over {write A, write B (same size), write C (bigger), write D (smaller), remove} x layouts {bare, existing manifest, each also with a structure of another application (APP11 JUMBF, private PNG chunk, GIF application extension, RIFF chunk, BMFF uuid box, JXL box, SVG comment) next to the manifest} x formats "
                        "(quick: all sequences of length <= 2 + sample; 10 formats); store lengths cycle through segment/chunk boundaries (64000-byte JPEG parts, odd RIFF sizes, ...) and seeded values; "
                        "non-trivial = more than one operation")
     good = [x for x in recs if "steps" in x]
